@@ -1,4 +1,6 @@
 """C26  Solute-vacancy jump networks classify every transition exactly once."""
+import os
+
 import numpy as np
 from hypothesis import strategies as st
 
@@ -18,12 +20,15 @@ RULE = ("Hypothesis draws a crystal recipe (2D/3D, generated or catalogue, <= 3 
         "om1_jn of VacancyMediated must contain exactly the swing jumps that start or end in the thermodynamic set, om2_jn every exchange, and "
         "omegalist() must return a member of each class. Non-trivial: >= 2 swing-jump classes; distinct by (crystal, species, cutoff, N, origin, Nthermo).")
 ASSUMPTIONS = ["the vacancy jump network is the library's own crys.jumpnetwork at a shell-midpoint cutoff (C21's subject)",
-               "VacancyMediated is only built for networks that satisfy the Green-function precondition (every component percolates in all directions)",
+               "VacancyMediated is only built for networks that satisfy the Green-function precondition (every component percolates in all directions); "
+               "it is built through its own constructor with the Green-function calculator stubbed out by a subclass (GFcalculator returns None), "
+               "because that object is not involved in generate()/omegalist() and costs up to 20 s on low-symmetry crystals",
                "a class is required to be a single orbit because both docstrings call the classes 'symmetry unique jumps' and attach one jumptype and one star pair to each",
                "dx compared with the geometric vacancy displacement to 1e-9 of the lattice scale"]
 SHARDS = {"quick": 4, "thorough": 16}
 CAP = 320
 VMCAP = 220
+VMCOST = 3e6   # bound on Nv^2 x (GF stars or omega1 classes) of the calculator's dense expansion arrays (cleaned element-wise in Python)
 
 
 @st.composite
@@ -86,6 +91,22 @@ def check_network(label, pg, keys, index_of_star, jnet, jt, sp, expected, where,
     return len(jnet)
 
 
+_calc = {}
+
+
+def _calculator(OnsagerCalc):
+    """VacancyMediated with the Green-function calculator left out: its construction costs up to 20 s on low-symmetry crystals
+    (unreduced k-point mesh) and plays no role in generate()/omegalist(); everything else is the library's own constructor"""
+    if "cls" not in _calc:
+        class NoGF(OnsagerCalc.VacancyMediated):
+            def GFcalculator(self, NGFmax=0):
+                self.NGFmax = NGFmax
+                self.clearcache()
+                return None
+        _calc["cls"] = NoGF
+    return _calc["cls"]
+
+
 def check(case):
     from onsager import crystalStars as stars
     crys, chem, sl, jn, pg, jcl, where = pairs.prepare(case)
@@ -125,15 +146,15 @@ def check(case):
         else:
             nth = case["Nthermo"]
             K = pg.reachable(jumps, nth + 1, True)
-            if len(K) > VMCAP and nth > 1:
+            if (len(K) > VMCAP or pairs.basis_cost(pg, K, jumps)[1] > VMCOST) and nth > 1:
                 nth = 1
                 K = pg.reachable(jumps, nth + 1, True)
-            if len(K) > VMCAP:
+            if len(K) > VMCAP or pairs.basis_cost(pg, K, jumps)[1] > VMCOST:
                 classes.append("vm_skipped_size")
             else:
                 from onsager import OnsagerCalc
                 T = pg.reachable(jumps, nth, False)
-                vm = OnsagerCalc.VacancyMediated(crys, chem, sl, jn, nth, NGFmax=2)
+                vm = _calculator(OnsagerCalc)(crys, chem, sl, jn, nth)
                 tk, kk = keyset(vm.thermo), keyset(vm.kinetic)
                 require(set(tk) == T and len(tk) == len(T), lambda: "VacancyMediated(Nthermo=%d): thermodynamic states differ from the brute-force set (%d vs %d)" % (nth, len(tk), len(T)))
                 require(set(kk) == K and len(kk) == len(K), lambda: "VacancyMediated(Nthermo=%d): kinetic states differ from the brute-force set with origin states (%d vs %d)" % (nth, len(kk), len(K)))
@@ -181,7 +202,7 @@ def run(ctx):
     if ctx.quick:
         base = [c for c in base if c["N"] <= 2]
     ctx.cases([c for i, c in enumerate(base) if ctx.mine(i)], check, label="catalogue")
-    ctx.given(cases(), check, quick=140, thorough=4000)
+    ctx.given(cases(), check, quick=140, thorough=4000, shrink=os.environ.get('VERIF_NOSHRINK') is None)
 
 
 def replay(case):
